@@ -329,7 +329,7 @@ class Interp(Ops):
         def fullmatch(ip, args, kwargs, n):
             s = ip.unopt(args[0])
             ip.st.uses_strings = True
-            return VOpt(z3.Not(z3.InRe(s.term, rx)), VOpaque(z3.Const("re_match", Opaque)))
+            return VOpt(z3.Not(z3.InRe(s.term, rx)), VObj("re.Match", 0))     # a match object is always truthy
         return VModule("regex:" + name, {"fullmatch": VBuiltin(name + ".fullmatch", fullmatch)})
 
     def eval_module_const(self, mod, name):
